@@ -78,7 +78,22 @@ struct Rng {
   // plaintext-like data aimed at the pad-stripping logic: about half of the bytes at the end of a 16-byte block are 1..16
   bytes padlike(size_t n) { bytes b = buf(n); for (size_t i = 15; i < n; i += 16) if (next() & 1) b[i] = (unsigned char)(1 + next() % 16); return b; }
   // a 16-byte key; every other call contains a zero byte (C strings end there)
-  bytes key16() { bytes k = buf(16); if (next() & 1) k[next() % 16] = 0; if (next() % 8 == 0) k[0] = 0; return k; }
+  // one call in four (once a key has been drawn) returns a NEIGHBOUR of the previous key of this process: same first half, same last
+  // half, one bit or one byte changed — state remembered across operations by PART of the key (a cached key schedule compared on 8 of its
+  // 16 bytes, a hash of the key, a checksum) only shows up when two such keys follow each other in one process (seed C02-r8)
+  bytes last_key;
+  bytes key16() {
+    bytes k = buf(16); if (next() & 1) k[next() % 16] = 0; if (next() % 8 == 0) k[0] = 0;
+    if (last_key.size() == 16 && next() % 4 == 0) {
+      bytes f = k; k = last_key;
+      switch (next() % 4) {
+        case 0: for (int i = 8; i < 16; i++) k[i] = f[i]; break;
+        case 1: for (int i = 0; i < 8; i++) k[i] = f[i]; break;
+        case 2: k[next() % 16] ^= (unsigned char)(1u << (next() % 8)); break;
+        default: { size_t i = next() % 16; k[i] = (unsigned char)(k[i] + 1 + next() % 255); } break;
+      }
+    }
+    last_key = k; return k; }
   // NUL-free bytes
   bytes nzbuf(size_t n) { bytes b(n); for (auto &x : b) x = (unsigned char)(1 + next() % 255); return b; }
 };
